@@ -1,0 +1,51 @@
+#![feature(allocator_api)]
+
+use naijascript::diagnostics::AsStr;
+use naijascript::runtime::RuntimeErrorKind;
+
+mod common;
+use crate::common::with_pipeline;
+
+fn run(src: &str) -> (Vec<String>, Vec<String>) {
+    with_pipeline(src, |_, (root, parse_errors), resolver, runtime| {
+        assert!(parse_errors.diagnostics.is_empty(), "{:?}", parse_errors.diagnostics);
+        resolver.resolve(root);
+        assert!(!resolver.errors.has_errors(), "{:?}", resolver.errors.diagnostics);
+        runtime.run_with_analysis(root, &resolver.facts, resolver.optimization_plan.as_ref());
+        (
+            runtime.output.iter().map(ToString::to_string).collect(),
+            runtime.errors.diagnostics.iter().map(|e| e.message.to_string()).collect(),
+        )
+    })
+}
+
+#[test]
+fn a_closure_of_a_deeper_activation_does_not_reach_the_older_activations_variable() {
+    // f(0) calls its own hoisted g() before its own `make v` has run.
+    let (out, errors) = run(
+        "do f(n) start
+            if to say (n na 0) start return g() end
+            make v get n
+            do g() start return v end
+            return f(n minus 1)
+        end
+        shout(f(1))",
+    );
+    assert!(out.is_empty(), "{out:?}");
+    assert_eq!(errors, [RuntimeErrorKind::UninitializedVariable.as_str()]);
+}
+
+#[test]
+fn each_activation_keeps_its_own_captured_variable() {
+    let (out, errors) = run(
+        "do f(n) start
+            make v get n
+            do g() start v get v add 10 return v end
+            if to say (n pass 0) start shout(f(n minus 1)) end
+            return g()
+        end
+        shout(f(2))",
+    );
+    assert!(errors.is_empty(), "{errors:?}");
+    assert_eq!(out, ["10", "11", "12"]);
+}
